@@ -2,12 +2,14 @@ package props
 
 import (
 	"fmt"
+	plencnull "github.com/philpearl/plenc/null"
 	"github.com/unravelin/null"
 	"math"
 	"os"
 	"reflect"
 	"sort"
 	"strings"
+	stdsync "sync"
 	"time"
 
 	"github.com/philpearl/plenc"
@@ -78,6 +80,8 @@ func opCodec(name string, t reflect.Type) cop {
 		return fmt.Sprintf("codec:wt%d", c.WireType())
 	}}
 }
+
+var pkgNullOnce stdsync.Once
 
 type scenario struct {
 	name    string
@@ -236,6 +240,27 @@ func c07Scenarios(tier string) []scenario {
 	steady("MK1 || MK2", ref.Cfg{}, ybSmall, poolProbe, []cop{mkOp("MK1", &mk1)}, []cop{mkOp("MK2", &mk2)})
 	steady("MKP1; MKP2 || MKP2; MKP1", ref.Cfg{}, yb, []cop{p1, p2}, []cop{p1, p2}, []cop{p2, p1})
 	steady("Intern{x,y} || Intern{y,z}", ref.Cfg{}, ybSmall, internProbe, []cop{iv("x", "y")}, []cop{iv("y", "z")})
+	// the package-level default instance through the package functions. It cannot be made fresh
+	// per execution, so only its steady state is explored (codecs built by the warm-up).
+	pkgU := func(name string, data []byte) cop {
+		return cop{"plenc.Unmarshal(" + name + ")", func(*plenc.Plenc) string {
+			out := &gen.Every{}
+			if err := plenc.Unmarshal(data, out); err != nil {
+				return "error"
+			}
+			return "value:" + canon(reflect.ValueOf(out))
+		}}
+	}
+	pkgM := func(name string, v any) cop {
+		return cop{"plenc.Marshal(" + name + ")", func(*plenc.Plenc) string {
+			b, err := plenc.Marshal(nil, v)
+			return "bytes:" + hx(b) + obsErr(err)
+		}}
+	}
+	pkgWarm := []cop{{"register null codecs on the default", func(*plenc.Plenc) string { pkgNullOnce.Do(plencnull.RegisterCodecs); return "" }},
+		pkgU("EveryA", evAData), pkgU("EveryB", evBData), pkgM("&EveryA", &evA)}
+	steady("package default: Unmarshal(EveryA) || Unmarshal(EveryB)", ref.Cfg{}, yb, pkgWarm, []cop{pkgU("EveryA", evAData)}, []cop{pkgU("EveryB", evBData)})
+	steady("package default: Marshal(&EveryA) || Unmarshal(EveryB)", ref.Cfg{}, yb, pkgWarm, []cop{pkgM("&EveryA", &evA)}, []cop{pkgU("EveryB", evBData)})
 	// S7 a recursive type whose build fails, concurrently with users of its slice type
 	bad := []gen.RBad{{}, {A: []gen.RBad{{}}}}
 	dup := []gen.RDup{{B: 1}, {A: []gen.RDup{{C: 2}}}}
@@ -303,6 +328,11 @@ func runScenario(c *mc.Ctx, prop string, sc scenario) {
 	c.AddEvals(-1)
 	c.Dim("scenario:" + sc.family)
 	c.Dim(fmt.Sprintf("threads:%d", len(sc.threads)))
+	// warm-up operations may have process-wide effects (the package-level default): run them once
+	// before the sequential specification is computed
+	for _, o := range sc.warm {
+		o.run(NewPlenc(sc.cfg))
+	}
 	want := make([][]string, len(sc.threads))
 	for i, ops := range sc.threads {
 		want[i] = seqSpecCfg(sc.cfg, ops)
